@@ -204,7 +204,8 @@ def compile_closure_with_globals_capturing(
         value_literal = get_literal_expr(value)
         if value_literal is None:
             global_name = f"g_{name}"
-            while global_name in namespace or global_name in global_namespace_dict:  # constants named ``foo`` and ``g_foo``
+            # constants named ``foo`` and ``g_foo``, closure named ``g_foo``
+            while global_name in namespace or global_name in global_namespace_dict or global_name == closure_name:
                 global_name = f"g_{global_name}"
             global_namespace_dict[global_name] = value
             builder += f"{name} = {global_name}"
